@@ -20,6 +20,7 @@ package security
 
 import (
 	"crypto/md5"
+	"crypto/rand"
 	"crypto/sha1"
 	"encoding/base32"
 	"encoding/base64"
@@ -55,6 +56,16 @@ func (id ID) Unique(prefix uint64, salt string) string {
 
 	enc := pbkdf2.Key(buffer[:], []byte(salt), 4096, 16, sha1.New)
 	return strings.Trim(base32.StdEncoding.EncodeToString(enc), "=")
+}
+
+// NewToken returns 128 random bits as a hex string, for values that must not be
+// guessable from the process-wide ID counter (which session and channel ids disclose).
+func NewToken() string {
+	var b [16]byte
+	if _, err := rand.Read(b[:]); err != nil {
+		panic(err) // crypto/rand 不可用时无法安全地签发令牌
+	}
+	return hex.EncodeToString(b[:])
 }
 
 // String converts the ID to a string representation.
